@@ -65,14 +65,30 @@ def execute(spec, policy, seed):
         def user(ops):
             def body():
                 for op in ops:
-                    if op[0] in ('q', 'f'):
+                    if op[0] in ('q', 'f', 'nq', 'nf'):
                         size = op[2]
                         data = bytes((op[1] * 7 + i) % 256 for i in range(size))
-                        pkt = serverbound.play.PluginMessagePacket(channel='w:%d' % op[1], data=data)
+                        cls = serverbound.play.PluginMessagePacket
+                        if op[0][0] == 'n':
+                            # a user-defined packet that, while it is being serialised, force-writes another packet on the
+                            # same connection (the write lock is re-entrant for exactly this): both must be whole frames
+                            class Nesting(serverbound.play.PluginMessagePacket):
+                                def write_fields(self_, packet_buffer, tag=op[1] + 500):
+                                    if not getattr(self_, '_nested_done', False):
+                                        self_._nested_done = True
+                                        d2 = bytes((tag * 7 + i) % 256 for i in range(11))
+                                        inner = serverbound.play.PluginMessagePacket(channel='w:%d' % tag, data=d2)
+                                        run.sched.log('hand', p=tag, mode='f')
+                                        r2 = api(run, c, 'write', packet=inner, force=True)
+                                        run.sched.log('forced_ret', p=tag, r=r2)
+                                    serverbound.play.PluginMessagePacket.write_fields(self_, packet_buffer)
+                            cls = Nesting
+                        pkt = cls(channel='w:%d' % op[1], data=data)
                         pkt._vtag = op[1]
-                        run.sched.log('hand', p=op[1], mode=op[0])
-                        r = api(run, c, 'write', packet=pkt, force=(op[0] == 'f'))
-                        run.sched.log('forced_ret' if op[0] == 'f' else 'queued_ret', p=op[1], r=r)
+                        mode = op[0][-1]
+                        run.sched.log('hand', p=op[1], mode=mode)
+                        r = api(run, c, 'write', packet=pkt, force=(mode == 'f'))
+                        run.sched.log('forced_ret' if mode == 'f' else 'queued_ret', p=op[1], r=r)
                     else:
                         api(run, c, op[0])
             return body
@@ -160,7 +176,7 @@ def random_spec(rng, nusers):
             pid += 1
             t = thr if thr else 64
             size = rng.choice([0, 3, t - 6, t - 5, t - 4, rng.randint(1, 40), rng.randint(100, 600)])
-            ops.append((rng.choice(['q', 'q', 'f']), pid, max(0, size)))
+            ops.append((rng.choice(['q', 'q', 'f', 'q', 'f', 'nq', 'nf']), pid, max(0, size)))
         if i == disc_user:
             ops.insert(rng.randint(1, len(ops)), (rng.choice(['disc', 'disc', 'disc_now']),))
         users['u%d' % (i + 2)] = ops
@@ -195,6 +211,7 @@ def run(chk):
         {'users': {'u2': [('f', 1, 5), ('q', 2, 9)], 'u3': [('q', 3, 7), ('disc_now',)]}, 'thr': None, 'enc': False},
         {'users': {'u2': [('q', 1, 80), ('f', 2, 3)], 'u3': [('f', 3, 70), ('q', 4, 2), ('disc',)]}, 'thr': 64, 'enc': True},
         {'users': {'u2': [('f', 1, 20), ('q', 2, 5)]}, 'thr': None, 'enc': True, 'early': True},
+        {'users': {'u2': [('nf', 1, 20), ('q', 2, 5)], 'u3': [('nq', 3, 70), ('disc',)]}, 'thr': 64, 'enc': False},
     ]
     bound = 2
     cap = 400 if quick else 6000
